@@ -1579,6 +1579,193 @@ Proof.
     eapply within_eeq; [apply eeq_sym; exact Db|apply eeq_sym; exact Da|exact W].
 Qed.
 
+(* "prefers integers" for ALL bounds: needs the constructor invariant int_free, which refinement preserves *)
+Lemma RA_lo_lt_hi p lo hi : LP L (RA p lo hi) -> (QofR lo < QofR hi)%Q.
+Proof.
+  intros H. destruct (P_RA L OK _ _ _ H) as (_ & _ & B1 & B2). apply LQ_lt_inv. eapply Llt_trans; eassumption.
+Qed.
+Lemma rn_refine_int_free x : LP L x -> int_free (VAlg x) -> int_free (VAlg (rn_refine x)).
+Proof.
+  destruct x as [q|p lo hi]; [trivial|]. intros Hx F. cbn [rn_refine].
+  destruct (P_RA L OK _ _ _ Hx) as (Wl & Wh & _). pose proof (RA_lo_lt_hi _ _ _ Hx) as LH.
+  destruct (q_mid_spec lo hi Wl Wh) as [Wm Vm]. change (q_div_2exp (q_add lo hi) 1) with (q_mid lo hi) in *.
+  assert (M0 : (2 * QofR (q_mid lo hi) == QofR lo + QofR hi)%Q) by (rewrite Vm; field).
+  destruct (psgn_q p (q_mid lo hi) =? 0); [exact I|].
+  destruct (psgn_q p lo * psgn_q p (q_mid lo hi) <? 0); cbn [int_free] in *; intros z [H1 H2]; apply (F z); split; lra.
+Qed.
+Lemma refine_away_int_free fuel : forall x q x', LP L x -> rn_refine_away fuel x q = Some x' ->
+  int_free (VAlg x) -> int_free (VAlg x').
+Proof.
+  induction fuel as [|f IH]; intros x q x' Hx H F; cbn [rn_refine_away] in H; [discriminate|].
+  destruct x as [r|p lo hi]; [injection H as <-; exact F|].
+  destruct (q_le q lo || q_le hi q); [injection H as <-; exact F|].
+  destruct (A_refine L OK _ Hx) as [P1 _]. eapply IH; [exact P1|exact H|]. apply rn_refine_int_free; assumption.
+Qed.
+Lemma va_sep_int_free fuel : forall x y x' y', LP L x -> LP L y -> va_sep fuel x y = Some (x', y') ->
+  int_free (VAlg x) -> int_free (VAlg y) -> int_free (VAlg x') /\ int_free (VAlg y').
+Proof.
+  induction fuel as [|f IH]; intros x y x' y' Hx Hy H Fx Fy; cbn [va_sep] in H; [discriminate|].
+  destruct x as [a|p lo hi].
+  - destruct (rn_refine_away (S f) y a) as [y1|] eqn:E; cbn in H; try discriminate. injection H as <- <-.
+    split; [exact I|]. exact (refine_away_int_free _ _ _ _ Hy E Fy).
+  - destruct y as [b|p' lo' hi'].
+    + destruct (rn_refine_away (S f) (RA p lo hi) b) as [x1|] eqn:E; cbn in H; try discriminate. injection H as <- <-.
+      split; [|exact I]. exact (refine_away_int_free _ _ _ _ Hx E Fx).
+    + destruct (q_le hi lo' || q_le hi' lo).
+      * injection H as <- <-. split; assumption.
+      * destruct (A_refine L OK _ Hx) as [P1 _]. destruct (A_refine L OK _ Hy) as [P2 _].
+        apply (IH _ _ _ _ P1 P2 H); apply rn_refine_int_free; assumption.
+Qed.
+Lemma v_cmp_sep_int_free fuel a b c a1 b1 : vok L a -> vok L b -> v_cmp_sep fuel a b = ROk (c, a1, b1) ->
+  int_free a -> int_free b -> int_free a1 /\ int_free b1.
+Proof.
+  intros Ha Hb H Fa Fb. unfold v_cmp_sep in H. destruct (v_cmp fuel a b) as [c0| |]; cbn [vr_bind] in H; try discriminate.
+  destruct (c0 =? 0); [injection H as <- <- <-; split; assumption|].
+  destruct a as [za|da|qa|xa| |], b as [zb|db|qb|xb| |]; cbn [v_fin_rat] in H; cbn [vok] in Ha, Hb;
+    try (injection H as <- <- <-; split; assumption).
+  all: try (match type of H with context [rn_refine_away ?f ?x ?q] =>
+         destruct (rn_refine_away f x q) as [x1|] eqn:ER; cbn in H; try discriminate; injection H as <- <- <-;
+         split; try assumption; try exact I;
+         first [exact (refine_away_int_free _ _ _ _ Ha ER Fa) | exact (refine_away_int_free _ _ _ _ Hb ER Fb)] end).
+  destruct (va_sep fuel xa xb) as [[x1 y1]|] eqn:ES; cbn in H; try discriminate. injection H as <- <- <-.
+  exact (va_sep_int_free _ _ _ _ _ Ha Hb ES Fa Fb).
+Qed.
+Lemma v_refine_bound_int_free v : vok L v -> int_free v -> int_free (v_refine_bound v).
+Proof.
+  intros Hv F. destruct v as [z|d|q|x| |]; cbn [v_refine_bound]; try exact F.
+  destruct (v_is_rational (VAlg x)); [exact F|]. apply rn_refine_int_free; assumption.
+Qed.
+
+Lemma hull_upper_int lo slo qa sa' xl k : vok L lo -> int_free lo -> den L lo = EFin xl ->
+  v_hull_upper lo slo = ROk (qa, sa') ->
+  (if slo then Llt L xl (LQ L (inject_Z k)) else Lle L xl (LQ L (inject_Z k))) ->
+  bnd_lo sa' (QofR qa) (inject_Z k).
+Proof.
+  intros Hlo F El HU W. destruct (v_hull_upper_spec _ _ _ _ Hlo HU) as (Wa & x1 & E1 & CA).
+  rewrite El in E1. injection E1 as <-.
+  destruct CA as [[DA ->]|(pa & la & -> & ->)].
+  - destruct slo; cbn [bnd_lo].
+    + apply LQ_lt_inv. eapply Llt_eq_l; [apply Leq_sym; exact DA|exact W].
+    + apply Qle_alt. rewrite <- (Q_cmp L OK). change (Lle L (LQ L (QofR qa)) (LQ L (inject_Z k))).
+      eapply Lle_eq_l; [apply Leq_sym; exact DA|exact W].
+  - cbn [bnd_lo]. cbn [den] in El. injection El as <-. cbn [vok] in Hlo. cbn [int_free] in F.
+    destruct (P_RA L OK _ _ _ Hlo) as (_ & _ & B1 & B2).
+    assert (W' : Lle L (Lden L (RA pa la qa)) (LQ L (inject_Z k))) by (destruct slo; [apply Llt_le; exact W|exact W]).
+    apply Qnot_lt_le. intros C. apply (F k). split; [|exact C].
+    apply LQ_lt_inv. eapply Llt_le_trans; [exact B1|exact W'].
+Qed.
+Lemma hull_lower_int hi shi qb sb' xh k : vok L hi -> int_free hi -> den L hi = EFin xh ->
+  v_hull_lower hi shi = ROk (qb, sb') ->
+  (if shi then Llt L (LQ L (inject_Z k)) xh else Lle L (LQ L (inject_Z k)) xh) ->
+  bnd_hi sb' (inject_Z k) (QofR qb).
+Proof.
+  intros Hhi F Eh HL W. destruct (v_hull_lower_spec _ _ _ _ Hhi HL) as (Wb & x1 & E1 & CB).
+  rewrite Eh in E1. injection E1 as <-.
+  destruct CB as [[DB ->]|(pb & hb & -> & ->)].
+  - destruct shi; cbn [bnd_hi].
+    + apply LQ_lt_inv. eapply Llt_eq_r; [exact W|exact DB].
+    + apply Qle_alt. rewrite <- (Q_cmp L OK). change (Lle L (LQ L (inject_Z k)) (LQ L (QofR qb))).
+      eapply Lle_eq_r; [exact W|exact DB].
+  - cbn [bnd_hi]. cbn [den] in Eh. injection Eh as <-. cbn [vok] in Hhi. cbn [int_free] in F.
+    destruct (P_RA L OK _ _ _ Hhi) as (_ & _ & B1 & B2).
+    assert (W' : Lle L (LQ L (inject_Z k)) (Lden L (RA pb qb hb))) by (destruct shi; [apply Llt_le; exact W|exact W]).
+    apply Qnot_lt_le. intros C. apply (F k). split; [exact C|].
+    apply LQ_lt_inv. eapply Lle_lt_trans; [exact W'|exact B2].
+Qed.
+
+Definition rec_int (rec : value -> bool -> value -> bool -> vres value) : Prop :=
+  forall lo slo hi shi v k, vok L lo -> vok L hi -> int_free lo -> int_free hi ->
+    ecmp L (den L lo) (den L hi) = Lt -> rec lo slo hi shi = ROk v ->
+    within (den L lo) slo (EFin (LQ L (inject_Z k))) (den L hi) shi -> v_is_integer v = true.
+
+Lemma between_core_int rec fuel lo slo hi shi v k : rec_int rec ->
+  vok L lo -> vok L hi -> int_free lo -> int_free hi -> ecmp L (den L lo) (den L hi) = Lt -> sepd lo hi ->
+  between_core rec fuel lo slo hi shi = ROk v ->
+  within (den L lo) slo (EFin (LQ L (inject_Z k))) (den L hi) shi -> v_is_integer v = true.
+Proof.
+  intros REC Hlo Hhi Flo Fhi LT S H W.
+  assert (FF : forall xl xh, den L lo = EFin xl -> den L hi = EFin xh ->
+     vr_bind (v_hull_upper lo slo) (fun ha => vr_bind (v_hull_lower hi shi) (fun hb =>
+       if q_cmp (fst ha) (fst hb) =? 0 then rec (v_refine_bound lo) slo (v_refine_bound hi) shi
+       else vr_map VRat (r_of_opt (v_pick fuel (fst ha) (snd ha) (fst hb) (snd hb))))) = ROk v ->
+     v_is_integer v = true).
+  { intros xl xh El Eh H0.
+    destruct (v_hull_upper lo slo) as [[qa sa']| |] eqn:HU; cbn [vr_bind] in H0; try discriminate.
+    destruct (v_hull_lower hi shi) as [[qb sb']| |] eqn:HL; cbn [vr_bind fst snd] in H0; try discriminate.
+    destruct (v_hull_upper_spec _ _ _ _ Hlo HU) as (Wa & _). destruct (v_hull_lower_spec _ _ _ _ Hhi HL) as (Wb & _).
+    assert (LT' : Llt L xl xh) by (rewrite El, Eh in LT; exact LT).
+    pose proof (hull_order _ _ _ _ _ _ _ _ _ _ Hlo Hhi El Eh LT' S HU HL) as ORD.
+    destruct (q_cmp qa qb =? 0) eqn:EQ.
+    - destruct (v_refine_bound_spec lo Hlo) as [Hlo' Dlo]. destruct (v_refine_bound_spec hi Hhi) as [Hhi' Dhi].
+      assert (LT2 : ecmp L (den L (v_refine_bound lo)) (den L (v_refine_bound hi)) = Lt).
+      { rewrite (ecmp_eq_l _ _ _ Dlo), (ecmp_eq_r _ _ _ Dhi). exact LT. }
+      apply (REC _ _ _ _ _ k Hlo' Hhi' (v_refine_bound_int_free _ Hlo Flo) (v_refine_bound_int_free _ Hhi Fhi) LT2 H0).
+      eapply within_eeq; [apply eeq_sym; exact Dlo|apply eeq_sym; exact Dhi|exact W].
+    - apply Z.eqb_neq in EQ. assert (LTq : (QofR qa < QofR qb)%Q).
+      { apply Qle_lt_or_eq in ORD. destruct ORD as [O|O]; [exact O|]. exfalso. apply EQ. apply (q_cmp_eq0 _ _ Wa Wb). exact O. }
+      destruct (v_pick fuel qa sa' qb sb') as [r|] eqn:EP; cbn in H0; try discriminate. injection H0 as <-.
+      cbn [v_is_integer]. destruct W as [W1 W2]. rewrite El in W1. rewrite Eh in W2. cbn [ecmp] in W1, W2.
+      apply (v_pick_prefers_int _ _ _ _ _ _ k Wa Wb LTq EP).
+      + apply (hull_upper_int lo slo qa sa' xl k Hlo Flo El HU). destruct slo; exact W1.
+      + apply (hull_lower_int hi shi qb sb' xh k Hhi Fhi Eh HL). destruct shi; exact W2. }
+  destruct lo as [zl|dl|ql|xl| |], hi as [zh|dh|qh|xh| |]; cbn [between_core] in H; cbn [den ecmp] in LT; try discriminate LT;
+    try (eapply FF; [reflexivity|reflexivity|exact H]).
+  all: try (match type of H with vr_bind ?h _ = _ => destruct h as [[? ?]| |]; cbn in H; try discriminate; injection H as <-; reflexivity end).
+  injection H as <-. reflexivity.
+Qed.
+
+Lemma between_rec_int fuel n : rec_int (v_between_rec n fuel).
+Proof.
+  induction n as [|n IH]; intros lo slo hi shi v k Hlo Hhi Flo Fhi LT H W; [discriminate H|].
+  rewrite between_rec_S in H.
+  destruct (v_cmp_sep fuel lo hi) as [[[c a1] b1]| |] eqn:ES; cbn [vr_bind] in H; try discriminate.
+  destruct (v_cmp_sep_spec _ _ _ _ _ _ Hlo Hhi ES) as (SC & Ha1 & Hb1 & Da & Db & SEP).
+  destruct (v_cmp_sep_int_free _ _ _ _ _ _ Hlo Hhi ES Flo Fhi) as [Fa1 Fb1].
+  rewrite LT in SC. cbn in SC.
+  assert (Cneg : c < 0) by (destruct c; cbn in SC; lia).
+  replace (c =? 0) with false in H by (symmetry; apply Z.eqb_neq; lia).
+  replace (0 <? c) with false in H by (symmetry; apply Z.ltb_ge; lia).
+  assert (LT1 : ecmp L (den L a1) (den L b1) = Lt).
+  { rewrite (ecmp_eq_l _ _ _ Da), (ecmp_eq_r _ _ _ Db). exact LT. }
+  apply (between_core_int _ _ _ _ _ _ _ k IH Ha1 Hb1 Fa1 Fb1 LT1 (SEP ltac:(lia)) H).
+  eapply within_eeq; [apply eeq_sym; exact Da|apply eeq_sym; exact Db|exact W].
+Qed.
+
+Lemma v_between_prefers_int fuel a sa b sb v k : vok L a -> vok L b -> int_free a -> int_free b ->
+  v_between fuel a sa b sb = ROk v ->
+  match ecmp L (den L a) (den L b) with
+  | Lt => within (den L a) sa (EFin (LQ L (inject_Z k))) (den L b) sb
+  | Gt => within (den L b) sb (EFin (LQ L (inject_Z k))) (den L a) sa
+  | Eq => False
+  end ->
+  v_is_integer v = true.
+Proof.
+  intros Ha Hb Fa Fb H W. unfold v_between in H. destruct fuel as [|n]; [discriminate H|].
+  rewrite between_rec_S in H.
+  destruct (v_cmp_sep (S n) a b) as [[[c a1] b1]| |] eqn:ES; cbn [vr_bind] in H; try discriminate.
+  destruct (v_cmp_sep_spec _ _ _ _ _ _ Ha Hb ES) as (SC & Ha1 & Hb1 & Da & Db & SEP).
+  destruct (v_cmp_sep_int_free _ _ _ _ _ _ Ha Hb ES Fa Fb) as [Fa1 Fb1].
+  destruct (ecmp L (den L a) (den L b)) eqn:EC; [contradiction| |]; cbn in SC.
+  - assert (Cneg : c < 0) by (destruct c; cbn in SC; lia).
+    replace (c =? 0) with false in H by (symmetry; apply Z.eqb_neq; lia).
+    replace (0 <? c) with false in H by (symmetry; apply Z.ltb_ge; lia).
+    assert (LT1 : ecmp L (den L a1) (den L b1) = Lt).
+    { rewrite (ecmp_eq_l _ _ _ Da), (ecmp_eq_r _ _ _ Db). exact EC. }
+    apply (between_core_int _ _ _ _ _ _ _ k (between_rec_int (S n) n) Ha1 Hb1 Fa1 Fb1 LT1 (SEP ltac:(lia)) H).
+    eapply within_eeq; [apply eeq_sym; exact Da|apply eeq_sym; exact Db|exact W].
+  - assert (Cpos : 0 < c) by (destruct c; cbn in SC; lia).
+    replace (c =? 0) with false in H by (symmetry; apply Z.eqb_neq; lia).
+    replace (0 <? c) with true in H by (symmetry; apply Z.ltb_lt; lia).
+    assert (LT1 : ecmp L (den L b1) (den L a1) = Lt).
+    { rewrite (ecmp_eq_l _ _ _ Db), (ecmp_eq_r _ _ _ Da), (ecmp_opp (den L a) (den L b)), EC. reflexivity. }
+    assert (S' : sepd b1 a1).
+    { assert (SEP' : sepd a1 b1) by (apply SEP; lia). clear - SEP'.
+      destruct a1 as [?|?|?|[?|? ? ?]| |], b1 as [?|?|?|[?|? ? ?]| |]; cbn in *; try exact I; try exact SEP'.
+      rewrite orb_comm. exact SEP'. }
+    apply (between_core_int _ _ _ _ _ _ _ k (between_rec_int (S n) n) Hb1 Ha1 Fb1 Fa1 LT1 S' H).
+    eapply within_eeq; [apply eeq_sym; exact Db|apply eeq_sym; exact Da|exact W].
+Qed.
+
 (* ------------------------------------------------------------------ 6. hashing: the bisection path depends only on the number *)
 Lemma hash_loop_ext prec : forall (f g : dyadic -> Z) lb m ub, (forall d, Z.sgn (f d) = Z.sgn (g d)) ->
   v_hash_loop prec f lb m ub = v_hash_loop prec g lb m ub.
